@@ -566,10 +566,12 @@ type methodRow struct {
 }
 
 type detail struct {
-	What  string `json:"what"`
-	Where string `json:"where"`
-	At    string `json:"at"`
-	Words string `json:"words"`
+	What   string `json:"what"`
+	Where  string `json:"where"`
+	At     string `json:"at"`
+	Words  string `json:"words"`
+	Canon  string `json:"canonical_words,omitempty"` // the same with the canonical identifiers of ParamsFoot.v
+	CWhere string `json:"canonical_where,omitempty"`
 }
 
 type report struct {
@@ -588,7 +590,8 @@ type report struct {
 	Api           [][3]string         `json:"api"`            // exported function, "result k" / "parameter n", verdict ("fresh" / "not-retained" / what it aliases, joined by "; ")
 	StorageWrites [][3]string         `json:"storage_writes"` // method, receiver field (or struct.[] for a slice / map receiver), how
 	FieldSets     [][3]string         `json:"field_sets"`     // method, field, what non-fresh value it is set to
-	PublishOnce   []string            `json:"publish_once"`   // storage fields only ever set to fresh memory and never written in place
+	PublishOnce   []string            `json:"publish_once"`
+	Names         map[string][]string `json:"canonical_names,omitempty"` // canonical identifier -> the real names it stands for   // storage fields only ever set to fresh memory and never written in place
 	Details       []detail            `json:"details"`
 	Blind         map[string][]string `json:"blind_spots"`
 }
@@ -1182,15 +1185,17 @@ func coqOutput(rep, tagged *report, errMsg string) string {
 	return b.String()
 }
 
-func analyse(root string, tags []string, fsetStd *stdCache) (*report, error) {
+// returns the report with the real names (for build/footprint.json) and the one with canonical identifiers (for Coq)
+func analyse(root string, tags []string, fsetStd *stdCache) (*report, *report, error) {
 	l := newLoader(root, tags, fsetStd.imp, fsetStd.fset)
 	pkgs, err := l.loadAll()
 	if err != nil {
-		return nil, err
+		return nil, nil, err
 	}
 	a := newAnalysis(fsetStd.fset, pkgs)
 	a.run()
-	return a.report(), nil
+	rep := a.report()
+	return rep, a.canonReport(rep), nil
 }
 
 type stdCache struct {
@@ -1210,18 +1215,18 @@ func main() {
 	fset := token.NewFileSet()
 	std := &stdCache{fset: fset, imp: newStdImporter(fset)}
 	errMsg := ""
-	rep, err := analyse(root, nil, std)
+	rep, crep, err := analyse(root, nil, std)
 	if err != nil {
 		errMsg = "untagged build: " + err.Error()
 	}
-	var tagged *report
+	var tagged, ctagged *report
 	if err == nil {
-		tagged, err = analyse(root, []string{"verif"}, std)
+		tagged, ctagged, err = analyse(root, []string{"verif"}, std)
 		if err != nil {
 			errMsg = "build with tag verif: " + err.Error()
 		}
 	}
-	text := coqOutput(rep, tagged, errMsg)
+	text := coqOutput(crep, ctagged, errMsg)
 	if *coqOut != "" {
 		old, _ := os.ReadFile(*coqOut)
 		if string(old) != text {
